@@ -86,6 +86,12 @@ FUNCTIONS = {
         "ensures": [
             # every returned dictionary is a valid pattern -> host embedding
             "forall(range(len(result)), lambda i: is_embedding(host, pattern, result[i], self.node_attrs, self.edge_attrs))",
+            # a host smaller than the pattern has no embedding; equal sizes: at most the one isomorphism VF2 reports;
+            # otherwise the enumeration is cut only by max_mappings.  (That an existing embedding is FOUND is bounded: twin.)
+            "implies(host.number_of_nodes() < pattern.number_of_nodes() or host.number_of_edges() < pattern.number_of_edges(), len(result) == 0)",
+            "implies(pattern.number_of_nodes() == host.number_of_nodes() and pattern.number_of_edges() == host.number_of_edges(), len(result) <= 1)",
+            "implies(self.max_mappings is not None and self.max_mappings >= 0 and not (pattern.number_of_nodes() == host.number_of_nodes() "
+            "and pattern.number_of_edges() == host.number_of_edges()), len(result) <= self.max_mappings)",
         ],
     },
 }
